@@ -21,8 +21,8 @@ from compiler.util import ir_data, ir_util, parser_types
 
 FM = ir_data.FunctionMapping
 
-KINDS = ["integer", "boolean", "enumA", "enumB", "opaque"]
-K_INT, K_BOOL, K_EA, K_EB, K_OPQ = range(5)
+KINDS = ["integer", "boolean", "enumA", "enumB", "opaque", "enumA2"]
+K_INT, K_BOOL, K_EA, K_EB, K_OPQ, K_EA2 = range(6)  # enumA2: a different enum with the same short name (Outer.EnumA)
 
 OPERATORS = [  # (FunctionMapping, text, syntactic arity or None for functions)
     (FM.ADDITION, "+", 2), (FM.SUBTRACTION, "-", 2), (FM.MULTIPLICATION, "*", 2),
@@ -38,7 +38,7 @@ def loc(n):
 
 
 def enum_ref(name):
-    return ir_data.Reference(canonical_name=ir_data.CanonicalName(module_file="m.emb", object_path=[name]))
+    return ir_data.Reference(canonical_name=ir_data.CanonicalName(module_file="m.emb", object_path=name.split(".")))
 
 
 def typed_leaf(kind, as_field, line):
@@ -51,6 +51,8 @@ def typed_leaf(kind, as_field, line):
         t = ir_data.ExpressionType(enumeration=ir_data.EnumType(name=enum_ref("EnumA")))
     elif kind == K_EB:
         t = ir_data.ExpressionType(enumeration=ir_data.EnumType(name=enum_ref("EnumB")))
+    elif kind == K_EA2:
+        t = ir_data.ExpressionType(enumeration=ir_data.EnumType(name=enum_ref("Outer.EnumA")))
     else:
         t = ir_data.ExpressionType(opaque=ir_data.OpaqueType())
     if as_field:
@@ -62,7 +64,7 @@ def typed_leaf(kind, as_field, line):
 
 
 def is_enum(k):
-    return z3.Or(k == K_EA, k == K_EB)
+    return z3.Or(k == K_EA, k == K_EB, k == K_EA2)
 
 
 def spec_accepts(opi, n, ks, fs):
@@ -96,7 +98,8 @@ def result_kind(t):
     if w == "boolean":
         return K_BOOL
     if w == "enumeration":
-        return K_EA if t.enumeration.name.canonical_name.object_path[-1] == "EnumA" else K_EB
+        path = tuple(t.enumeration.name.canonical_name.object_path)
+        return {("EnumA",): K_EA, ("EnumB",): K_EB, ("Outer", "EnumA"): K_EA2}.get(path)
     if w == "opaque":
         return K_OPQ
     return None
@@ -236,10 +239,10 @@ def run_positions():
         rp = ir_data.RuntimeParameter(type=e.type, physical_type_alias=ir_data.Type())
         type_check._type_check_parameter(rp, "m.emb", errs)
 
-    simple("parameter definition", param_def, lambda k: k in (K_INT, K_EA, K_EB))
+    simple("parameter definition", param_def, lambda k: k in (K_INT, K_EA, K_EB, K_EA2))
 
     # passed parameters: declared (d1[,d2]) vs passed (p1[,p2]) over {integer, enumA, enumB}; arity 0..2 each side
-    PK = [K_INT, K_EA, K_EB]
+    PK = [K_INT, K_EA, K_EB, K_EA2]
     holder = {}
 
     def mk_type(k):
@@ -248,8 +251,8 @@ def run_positions():
     def body(c):
         nd = c.choose(3, "ndecl")
         npass = c.choose(3, "npass")
-        ds = [PK[c.choose(3, "d%d" % i)] for i in range(nd)]
-        ps = [[K_INT, K_BOOL, K_EA, K_EB][c.choose(4, "p%d" % i)] for i in range(npass)]
+        ds = [PK[c.choose(4, "d%d" % i)] for i in range(nd)]
+        ps = [[K_INT, K_BOOL, K_EA, K_EB, K_EA2][c.choose(5, "p%d" % i)] for i in range(npass)]
         holder.update(ds=ds, ps=ps)
         tdef = ir_data.TypeDefinition(
             name=ir_data.NameDefinition(name=ir_data.Word(text="T"), canonical_name=ir_data.CanonicalName(module_file="m.emb", object_path=["T"])),
@@ -391,8 +394,9 @@ def _job(j):
 
 # ---- replay through the whole front end --------------------------------
 
-LEAF_TEXT = {"integer": "ui", "boolean": "fl", "enumA": "ea", "enumB": "eb", "opaque": "st"}
-EXPR_TEXT = {"integer": "(ui+1)", "boolean": "(fl&&true)", "enumA": "(fl ? ea : ea)", "enumB": "(fl ? eb : eb)", "opaque": "st"}
+LEAF_TEXT = {"integer": "ui", "boolean": "fl", "enumA": "ea", "enumB": "eb", "opaque": "st", "enumA2": "ea2"}
+EXPR_TEXT = {"integer": "(ui+1)", "boolean": "(fl&&true)", "enumA": "(fl ? ea : ea)", "enumB": "(fl ? eb : eb)", "opaque": "st",
+             "enumA2": "(fl ? ea2 : ea2)"}
 
 HEADER = """[$default byte_order: "LittleEndian"]
 enum EnumA:
@@ -401,12 +405,16 @@ enum EnumB:
   TWO = 2
 struct Sub:
   0 [+1]  UInt  q
+struct Outer:
+  enum EnumA:
+    UNO = 1
+  0 [+1]  UInt  inner
 """
 
 
 def emb_for(c):
     body = ("struct Main:\n  0 [+1]  UInt  ui\n  1 [+1]  bits:\n    0 [+1]  Flag  fl\n  2 [+1]  EnumA  ea\n"
-            "  3 [+1]  EnumB  eb\n  4 [+1]  Sub  st\n")
+            "  3 [+1]  EnumB  eb\n  4 [+1]  Sub  st\n  5 [+1]  Outer.EnumA  ea2\n")
     if "op" in c:
         ops = [(LEAF_TEXT if kind == "field" else EXPR_TEXT)[t] for t, kind in c["operands"]]
         op = c["op"]
@@ -418,8 +426,8 @@ def emb_for(c):
             ex = "%s %s %s" % (ops[0], op, ops[1])
         return HEADER + body + "  let v = %s\n" % ex
     if c.get("position") == "passed parameters":
-        names = {"integer": "UInt:8", "enumA": "EnumA", "enumB": "EnumB"}
-        vals = {"integer": "5", "boolean": "true", "enumA": "EnumA.ONE", "enumB": "EnumB.TWO"}
+        names = {"integer": "UInt:8", "enumA": "EnumA", "enumB": "EnumB", "enumA2": "Outer.EnumA"}
+        vals = {"integer": "5", "boolean": "true", "enumA": "EnumA.ONE", "enumB": "EnumB.TWO", "enumA2": "Outer.EnumA.UNO"}
         decl = ", ".join("p%d: %s" % (i, names[d]) for i, d in enumerate(c["declared"]))
         t = "struct Tee%s:\n  0 [+1]  UInt  z\n" % ("(%s)" % decl if decl else "")
         passed = ", ".join(vals[p] for p in c["passed"])
